@@ -63,6 +63,25 @@ pub fn gen_c14(seed: u64, _thorough: bool) -> Plan {
             i += g.range(2, 40) as usize;
         }
     }
+    // names with multi-byte UTF-8 characters: the byte length is still exactly `len`, the character count is smaller
+    // (SOCKS5 carries any bytes, and the HTTP request parser lets bytes >= 0x80 through in the request target)
+    let utf8 = kind != "socks5-bytes" && len >= 2 && g.chance(35);
+    if utf8 {
+        let pool: [&str; 10] = ["a", "b", "0", "-", "\u{e9}", "\u{df}", "\u{4e2d}", "\u{6587}", "\u{1f600}", "\u{44f}"];
+        let mut out: Vec<u8> = Vec::with_capacity(len);
+        // a heavy draw makes (almost) every character multi-byte, so that len/3 .. len/2 characters give len bytes
+        let heavy = g.chance(60);
+        while out.len() < len {
+            let room = len - out.len();
+            let c = if heavy && room >= 2 { pool[4 + g.below(6) as usize] } else { *g.pick(&pool) };
+            if c.len() <= room {
+                out.extend_from_slice(c.as_bytes());
+            } else {
+                out.push(b'x');
+            }
+        }
+        name = out;
+    }
     let port = g.range(1, 65535) as u16;
     let payload_len = g.range(1, 400) as usize;
     Plan {
@@ -73,7 +92,7 @@ pub fn gen_c14(seed: u64, _thorough: bool) -> Plan {
         config,
         knobs: KnobsPlan::simple(),
         flows: vec![],
-        extra: serde_json::json!({ "kind": kind, "name": name, "port": port, "payload": payload_len }),
+        extra: serde_json::json!({ "kind": kind, "name": name, "port": port, "payload": payload_len, "utf8": utf8 }),
     }
 }
 
@@ -241,7 +260,9 @@ pub fn execute_c14(plan: &Plan) -> Outcome {
     let len = name.len();
     let class = if len == 0 { "empty" } else if len <= 255 { "1-255" } else { "over-255" };
     let mut v = Vec::new();
-    let sig = |oracle: &str| format!("C14/{oracle}/{cell}/{kind}/{class}");
+    let utf8 = plan.extra["utf8"].as_bool().unwrap_or(false);
+    let kind_label = if utf8 { format!("{kind}+utf8") } else { kind.clone() };
+    let sig = |oracle: &str| format!("C14/{oracle}/{cell}/{kind_label}/{class}");
     let shown = String::from_utf8_lossy(&name[..name.len().min(24)]).to_string();
     let want_payload: Vec<u8> = if kind == "plain" {
         let mut req = b"GET http://".to_vec();
@@ -266,7 +287,7 @@ pub fn execute_c14(plan: &Plan) -> Outcome {
                 format!(
                     "name of {len} bytes ({shown:?}...) port {port}: the client put {} bytes on the wire, the server resolved {:?} and dialled {:?}, the target received {} of {} payload bytes (identical: {}); handshake {:?}, application end {:?}",
                     seen.c2s_bytes,
-                    seen.dns.iter().map(|n| format!("{}B:{}", n.len(), &n[..n.len().min(16)])).collect::<Vec<_>>(),
+                    seen.dns.iter().map(|n| format!("{}B:{}", n.len(), String::from_utf8_lossy(&n.as_bytes()[..n.len().min(16)]))).collect::<Vec<_>>(),
                     seen.dials,
                     seen.target_recv.len(),
                     want_payload.len(),
@@ -277,7 +298,8 @@ pub fn execute_c14(plan: &Plan) -> Outcome {
             ));
         }
         // representable, well-formed names must actually work; unrepresentable ones must be refused
-        let well_formed = name_str.is_some() && kind != "socks5-bytes";
+        // (a non-ASCII name inside an HTTP request target may be refused as malformed; SOCKS5 carries it as it is)
+        let well_formed = name_str.is_some() && kind != "socks5-bytes" && (!utf8 || kind == "socks5");
         if (1..=255).contains(&len) && well_formed && !exact && nothing {
             v.push(Violation::new("C14", sig("representable-refused"), format!("name of {len} bytes ({shown:?}...) port {port} was refused: handshake {:?}, application end {:?}", seen.hs_failed, seen.app_end)));
         }
@@ -335,7 +357,7 @@ pub fn execute_c14(plan: &Plan) -> Outcome {
     let _ = crate::rt::take_panics();
     let mut probes = BTreeMap::new();
     probes.insert(format!("names_{class}"), 1);
-    probes.insert(format!("via_{kind}"), 1);
+    probes.insert(format!("via_{kind_label}"), 1);
     probes.insert("codec_round_trips".to_owned(), evals);
     Outcome {
         violations: v,
